@@ -630,6 +630,7 @@ type Datagram struct {
 	Dropped   bool
 	Delivered bool // handed to a reader
 	TruncRead bool // reader's buffer was smaller than the datagram
+	Seen      []byte // the octets the reader was actually handed (server side)
 	SentSeq   uint64
 	RecvSeq   uint64
 	// receive-buffer bookkeeping for oracle B1 (server side)
@@ -804,6 +805,7 @@ func (o *recvOp) Done(now time.Time) {
 		d.RecvSeq = e.n.K.Seq
 		o.d = d
 		if o.pc != nil {
+			d.Seen = append([]byte(nil), o.p[:o.n]...)
 			d.buf = o.p[:cap(o.p)]
 			d.bufOp = o.opID
 			o.pc.Received = append(o.pc.Received, d)
